@@ -34,6 +34,7 @@ type World struct {
 	typeInvs    map[string]*Clause
 	globalInvs  map[string]*Clause
 	rvUnder     types.Type
+	initMode    bool // verifying a package initialiser: global invariants are goals, not assumptions
 	immutable   map[string]bool
 	macros      map[string]string
 	filterNames map[*ssa.Function]string
